@@ -95,6 +95,41 @@ func isBytesFunc(info *types.Info, call *ast.CallExpr, names ...string) string {
 }
 
 // extractCodec finds the key builders and parsers of package rel.
+// joinViaHelper marks synthesised bytes.Join calls that stand for a call of a join helper.
+var joinViaHelper = map[*ast.CallExpr]bool{}
+
+// joinHelperSep: call invokes a repository function of the form
+// func f(parts ...[]byte) []byte { return bytes.Join(parts, <sep literal>) }; returns the separator expression.
+func joinHelperSep(p *core.Prog, info *types.Info, call *ast.CallExpr) (ast.Expr, bool) {
+	fn := core.CalleeFunc(info, call)
+	if fn == nil || call.Ellipsis != token.NoPos {
+		return nil, false
+	}
+	sig, ok := fn.Type().(*types.Signature)
+	if !ok || !sig.Variadic() || sig.Params().Len() != 1 {
+		return nil, false
+	}
+	fi := p.Info(fn)
+	if fi == nil || fi.Decl.Body == nil || len(fi.Decl.Body.List) != 1 {
+		return nil, false
+	}
+	ret, ok := fi.Decl.Body.List[0].(*ast.ReturnStmt)
+	if !ok || len(ret.Results) != 1 {
+		return nil, false
+	}
+	jc, ok := ast.Unparen(ret.Results[0]).(*ast.CallExpr)
+	if !ok || isBytesFunc(fi.Pkg.TypesInfo, jc, "Join") == "" || len(jc.Args) != 2 {
+		return nil, false
+	}
+	if o := defOrUse(fi.Pkg.TypesInfo, jc.Args[0]); o == nil || o != sig.Params().At(0) {
+		return nil, false
+	}
+	if _, ok := bytesLit(fi.Pkg.TypesInfo, jc.Args[1]); !ok {
+		return nil, false
+	}
+	return jc.Args[1], true
+}
+
 func extractCodec(p *core.Prog, rel string) *keyCodec {
 	pk := p.Pkg(rel)
 	if pk == nil {
@@ -141,7 +176,16 @@ func extractCodec(p *core.Prog, rel string) *keyCodec {
 						continue
 					}
 				}
-				if call, ok := ret.Results[0].(*ast.CallExpr); ok && isBytesFunc(info, call, "Join") != "" && len(call.Args) == 2 {
+				if call, ok := ret.Results[0].(*ast.CallExpr); ok {
+					// joinKey(a, b, …) where joinKey(parts ...[]byte) = bytes.Join(parts, sep)
+					if jsep, isHelper := joinHelperSep(p, info, call); isHelper {
+						call = &ast.CallExpr{Fun: call.Fun, Lparen: call.Lparen, Rparen: call.Rparen,
+							Args: []ast.Expr{&ast.CompositeLit{Lbrace: call.Lparen, Elts: call.Args, Rbrace: call.Rparen}, jsep}}
+						ret = &ast.ReturnStmt{Return: ret.Return, Results: []ast.Expr{call}}
+						joinViaHelper[call] = true
+					}
+				}
+				if call, ok := ret.Results[0].(*ast.CallExpr); ok && (isBytesFunc(info, call, "Join") != "" || joinViaHelper[call]) && len(call.Args) == 2 {
 					cl, ok := call.Args[0].(*ast.CompositeLit)
 					sep, ok2 := bytesLit(info, call.Args[1])
 					if ok && ok2 {
@@ -151,6 +195,10 @@ func extractCodec(p *core.Prog, rel string) *keyCodec {
 							c := keyComp{Param: -1}
 							switch x := ast.Unparen(el).(type) {
 							case *ast.Ident:
+								if x.Name == "nil" && info.Uses[x] == types.Universe.Lookup("nil") {
+									c.Kind = "empty"
+									break
+								}
 								if o := info.Uses[x]; o != nil {
 									if pi, isP := params[o]; isP {
 										c.Kind, c.Param, c.Name = "bytes", pi, x.Name
